@@ -33,6 +33,14 @@ def cases(draw, tier):
         else:
             steps.append({'op': 'return', 'v': val(i)})
         acts.append({'name': 'x%d' % i, 'steps': steps})
+    if n and draw(st.integers(0, 4)) == 0:
+        # one activity supervises children of its own and waits for them at the end of its block: when it is aborted
+        # there (it is slow: a loser, unless all results are wanted), its children go with it
+        i = draw(st.integers(0, n - 1))
+        acts[i]['steps'] = [{'op': 'scope', 'name': 'LS', 'catch': False, 'body': [{'op': 'sleep', 'd': 0.25}], 'children': [
+            {'name': 'lk0', 'steps': [{'op': 'sleep', 'd': 9}, {'op': 'sleep', 'd': 9}]},
+            {'name': 'lk1', 'steps': [{'op': 'sleep', 'd': draw(st.sampled_from([0.5, 9]))}, {'op': 'sleep', 'd': 9}]}]}] + \
+            [x for x in acts[i]['steps'] if x['op'] in ('return', 'raise')]
     extra = []
     if kind == 'collect' and n and draw(st.integers(0, 3)) == 0:
         # some activities wait for a task of the surrounding scope which a third party cancels: they fail with
@@ -92,6 +100,11 @@ def comp_time(start, a, tc=None):
     """(completion time, round) of a one-wait activity started at `start` (tc: when the awaited task is cancelled)."""
     t, rnd = start, 0
     for s in a['steps']:
+        if s['op'] == 'scope':
+            # an activity that supervises children of its own: done when its body and all of them are
+            ends = [comp_time(t, {'steps': s.get('body', ())}, tc)[0]] + [comp_time(t, ch, tc)[0] for ch in s['children']]
+            t, rnd = max(ends), 1
+            continue
         if s['op'] == 'sleep':
             t = t + num(s['d'])
             rnd = 1
@@ -331,9 +344,13 @@ def judge(out, case, it, oc, exc, ctx):
         end_ev = guard_leave       # the caller left its block: nothing of the activities may run from here on
     # ---- aborted activities run no code afterwards, and their clean-up ran by then
     if end_ev is not None:
-        for nm in names:
+        nested_kids = [ch['name'] for a in acts for s_ in a['steps'] if s_['op'] == 'scope' for ch in s_['children']]
+        for nm in names + nested_kids:
             evs = per.get(nm, ())
             late = [e for e in evs if e[0] > end_ev[0]]
+            # (what an activity logs while it is being unwound - blocks left by GeneratorExit, task states - is no code of its own)
+            late = [e for e in late if not (e[4] == end_ev[4] and (
+                e[3] == 'tasks' or (e[3] in ('body_exc', 'leave', 'exc') and e[5] and e[5][0] in ('genexit', 'closed', 'volclosed'))))]
             if node.get('keep'):
                 # an iterator that the caller kept in a variable is closed when the caller's frame goes - right after the
                 # caller itself ended, in the same time step: the forced-close entries of the losers come that much later
